@@ -238,4 +238,33 @@ example : W.plain.Pairwise (fun i j => Accepted expected [i, j]) ∧ (∀ i ∈ 
 example : Accepted expected W.plain ∧ Accepted expected W.plain.reverse ∧
     (∀ i ∈ W.plain, TypesNodup i.schema ∧ FieldsNodup i.schema ∧ RootsAreObjects i.schema) := by decide
 
+/-! ## the relay-id exemption is for `id: ID!` only -/
+
+/-- the tie: `isNonNullableTypeNamed` / `isNullableTypeNamed` have a known shape and require
+    `t.Elem == nil` -/
+theorem C05_named_type_facts :
+    namedTypeRecognised = true ∧ namedTypeExcludesLists = true := by decide
+
+/-- Two declarations of a type may overlap in the relay id without being copies of each other. The
+    field exempted is exactly `id: ID!` without arguments — not `id: [ID!]!`, which the looser test
+    (innermost name `ID`, outermost non-null) also let through: then `type X { id: [ID!]! x: Int }`
+    and `type X { id: [ID!]! z: Int }` were merged instead of rejected. -/
+theorem C05_id_exemption_exact (f : FieldDef) (h : isIDField f = true) :
+    f.name = idFieldName ∧ f.args = [] ∧ f.type = .nonNull (.named "ID") := by
+  have hf := C05_named_type_facts.2
+  simp only [isIDField, isIDType, isNonNullNamed, hf, if_true, Bool.and_eq_true, beq_iff_eq,
+    List.isEmpty_iff] at h
+  exact ⟨h.1.1, h.1.2, h.2⟩
+
+/-- the result type the relay `node` field must have is exactly `Node` (nullable, not a list) -/
+theorem C05_node_result_exact (t : TypeRef) (h : isNullableNamed t nodeInterfaceName = true) :
+    t = .named nodeInterfaceName := by
+  have hf := C05_named_type_facts.2
+  simpa only [isNullableNamed, hf, if_true, beq_iff_eq] using h
+
+/-- before the repair: the innermost-name test accepts a list of ids as "the id type" -/
+theorem C05_before_repair_list_of_id :
+    let t : TypeRef := .nonNull (.list (.nonNull (.named "ID")))
+    (t.name == "ID" && t.isNonNull) = true ∧ t ≠ .nonNull (.named "ID") := by decide
+
 end PebblesVerif.Merge
